@@ -266,7 +266,7 @@ Definition r_verdict (id : Z) (ht : htab) (bl fl : runs) (hard : list (Z * Z)) (
   let env := mk_env envr in
   let hardf := fun h => lookup h hard in
   let cpl := List.map (fun p : Z * runs => (fst p, unruns (snd p))) cps in
-  let '(bans, res, flag) := resolve_conflict_ix fast_ix hardf v env rs hint cpl in
+  let '(bans, res) := resolve_conflict_ix Hf fast_ix hardf v env rs hint cpl in
   let '(obans, ores) := ob in
   let ores' := option_map unruns ores in
   (if list_eqb obans (sort_set bans) && opt_eqb list_eqb ores' res then [] else [(id, 1, 0, 0)]) ++
@@ -299,8 +299,11 @@ Definition r_verdict (id : Z) (ht : htab) (bl fl : runs) (hard : list (Z * Z)) (
     let ok_value := match ores' with Some l => is_prefix l tc | None => true end in
     let liars := List.map fst (List.filter (fun q : Z * list Z => negb (is_prefix (snd q) tc)) cpl) in
     let ok_liars := match ores' with Some _ => List.forallb (fun p => mem p obans) liars | None => true end in
-    let ok_progress := match ores' with Some _ => true | None => negb (length obans =? 0)%nat end in
-    if ok_honest && ok_value && ok_liars && ok_progress then [] else [(id, 2, 0, flag)]
+    let ok_progress := match ores' with
+                       | Some _ => true
+                       | None => List.existsb (fun q => mem q (List.map fst cpl)) obans
+                       end in
+    if ok_honest && ok_value && ok_liars && ok_progress then [] else [(id, 2, 0, 0)]
   else [].
 
 (* ---------- family C: getCheckpointedCFHeaders ---------- *)
